@@ -30,8 +30,15 @@
      (SExit k: server `Stream.__aexit__` + the `finally: release_stream()` / the done-callback of
      `Handler.accept`), the server announcing MAX_CONCURRENT_STREAMS (SSettings).
 
-   Not modelled: connection loss (the property is about a live connection), a paused transport
-   (`write_ready` is taken as set: RST frames of reset_nowait are written at once), flow control, message
+   * pause_writing / resume_writing of the client transport (CPause / CResume) as far as they change WHAT
+     is done: `reset_nowait` at context exit calls h2 reset_stream but does not write while paused, the
+     frame waits in h2's buffer (k_held) for the next write of any kind (CFlush: data_received's flush,
+     another call's write, an ack ...; when that happens is left to the history).  That every other
+     client op first awaits write_ready only delays those ops; the model allows them at any time, which
+     adds histories.  The server's transport likewise (its reset_nowait always follows a completed
+     `await write_ready.wait()` without suspension in between);
+
+   Not modelled: connection loss (the property is about a live connection), flow control, message
    contents, which await a client call is blocked in (every client op is possible whenever the phase
    allows it, which only adds behaviours). *)
 From Coq Require Import ZArith List Bool Arith.
@@ -76,9 +83,11 @@ Record call := {
   k_trail : bool;        (* server Stream._send_trailing_metadata_done *)
   k_cancel : bool;       (* server Stream._cancel_done *)
   k_qc : list fk;        (* frames of this stream in flight client -> server *)
-  k_qs : list fk         (* frames of this stream in flight server -> client *)
+  k_qs : list fk;        (* frames of this stream in flight server -> client *)
+  k_held : bool          (* an RST_STREAM of this stream sits in the client's h2 send buffer: reset_nowait
+                            ran while writing was paused and nothing has been written since *)
 }.
-Definition call0 : call := Build_call CNew h2_idle SNone h2_idle false false [] [].
+Definition call0 : call := Build_call CNew h2_idle SNone h2_idle false false [] [] false.
 
 Record state := {
   calls : list call;
@@ -86,10 +95,11 @@ Record state := {
   sreg : list nat;       (* keys of the server's EventsProcessor.streams *)
   maxc : Z;              (* client h2: remote_settings.max_concurrent_streams (as last received) *)
   flag : bool;           (* client Connection.stream_close_waiter flag *)
-  sq : list Z            (* SETTINGS(MAX_CONCURRENT_STREAMS) frames in flight server -> client *)
+  sq : list Z;           (* SETTINGS(MAX_CONCURRENT_STREAMS) frames in flight server -> client *)
+  cpaused : bool         (* client transport called pause_writing (write_ready cleared) *)
 }.
 
-Definition init (n : nat) (m : Z) : state := Build_state (repeat call0 n) [] [] m false [].
+Definition init (n : nat) (m : Z) : state := Build_state (repeat call0 n) [] [] m false [] false.
 
 (* how request_handler ends: KOk = returned (OK trailers unless already sent); KErr = GRPCError / other
    Exception / deadline / unary reply missing (non-OK trailers then RST); KBase = a BaseException that is
@@ -108,7 +118,10 @@ Inductive op :=
 | STrailers (c : nat) (nonok : bool)
 | SCancel (c : nat)
 | SExit (c : nat) (k : exitk)
-| SSettings (n : Z).
+| SSettings (n : Z)
+| CPause
+| CResume
+| CFlush.
 
 Inductive out := ONone | OOpened | OBlocked | ORaise | OSkip | OEmpty.
 
@@ -130,20 +143,26 @@ Fixpoint remove_nat (c : nat) (l : list nat) : list nat :=
   match l with [] => [] | x :: r => if Nat.eqb x c then remove_nat c r else x :: remove_nat c r end.
 
 Definition set_cph (p : cphase) (k : call) : call :=
-  Build_call p (k_ch k) (k_sph k) (k_sh k) (k_trail k) (k_cancel k) (k_qc k) (k_qs k).
+  Build_call p (k_ch k) (k_sph k) (k_sh k) (k_trail k) (k_cancel k) (k_qc k) (k_qs k) (k_held k).
 (* the client endpoint changes its h2 view and writes frames *)
 Definition cl_act (h : h2s) (fs : list fk) (k : call) : call :=
-  Build_call (k_cph k) h (k_sph k) (k_sh k) (k_trail k) (k_cancel k) (k_qc k ++ fs) (k_qs k).
+  Build_call (k_cph k) h (k_sph k) (k_sh k) (k_trail k) (k_cancel k) (k_qc k ++ fs) (k_qs k) (k_held k).
 (* the server endpoint changes its h2 view / flags and writes frames *)
 Definition sv_act (p : sphase) (h : h2s) (tr cn : bool) (fs : list fk) (k : call) : call :=
-  Build_call (k_cph k) (k_ch k) p h tr cn (k_qc k) (k_qs k ++ fs).
+  Build_call (k_cph k) (k_ch k) p h tr cn (k_qc k) (k_qs k ++ fs) (k_held k).
+
+Definition set_held (b : bool) (k : call) : call :=
+  Build_call (k_cph k) (k_ch k) (k_sph k) (k_sh k) (k_trail k) (k_cancel k) (k_qc k) (k_qs k) b.
+(* a write of the client's h2 send buffer: every RST_STREAM held back reaches the wire *)
+Definition flush1 (k : call) : call :=
+  if k_held k then set_held false (cl_act (k_ch k) [KRst] k) else k.
 
 (* asyncio.Event.set(): every waiter becomes runnable *)
 Definition wake (k : call) : call :=
   match k_cph k with CWaiting => set_cph CWoken k | _ => k end.
 
 Definition with_calls (s : state) (l : list call) : state :=
-  Build_state l (creg s) (sreg s) (maxc s) (flag s) (sq s).
+  Build_state l (creg s) (sreg s) (maxc s) (flag s) (sq s) (cpaused s).
 
 (* server: send END_STREAM on trailers, then RST when asked and still closable.
    Returns the new h2 view and the frames written. *)
@@ -154,17 +173,17 @@ Definition srv_trailers (nonok : bool) (h : h2s) : h2s * list fk :=
 (* a frame arrives at the server endpoint *)
 Definition srv_recv (f : fk) (k : call) : call * bool (* registered now *) :=
   let k0 := Build_call (k_cph k) (k_ch k) (k_sph k) (k_sh k) (k_trail k) (k_cancel k)
-                       (tl (k_qc k)) (k_qs k) in
+                       (tl (k_qc k)) (k_qs k) (k_held k) in
   match f with
   | KHeaders es =>
     if h_op (k_sh k) then (k0, false)
     else
       (* RequestReceived: create_stream, register, handler.accept (task created) *)
-      (Build_call (k_cph k) (k_ch k) SRunning (h2_new false es) false false (tl (k_qc k)) (k_qs k), true)
+      (Build_call (k_cph k) (k_ch k) SRunning (h2_new false es) false false (tl (k_qc k)) (k_qs k) (k_held k), true)
   | KEnd => (Build_call (k_cph k) (k_ch k) (k_sph k) (h2_recv_end (k_sh k)) (k_trail k) (k_cancel k)
-                        (tl (k_qc k)) (k_qs k), false)
+                        (tl (k_qc k)) (k_qs k) (k_held k), false)
   | KRst => (Build_call (k_cph k) (k_ch k) (k_sph k) (h2_recv_rst (k_sh k)) (k_trail k) (k_cancel k)
-                        (tl (k_qc k)) (k_qs k), false)
+                        (tl (k_qc k)) (k_qs k) (k_held k), false)
   end.
 
 (* a frame arrives at the client endpoint *)
@@ -174,7 +193,7 @@ Definition cl_recv (f : fk) (k : call) : call :=
            | KEnd => h2_recv_end (k_ch k)
            | KRst => h2_recv_rst (k_ch k)
            end in
-  Build_call (k_cph k) h (k_sph k) (k_sh k) (k_trail k) (k_cancel k) (k_qc k) (tl (k_qs k)).
+  Build_call (k_cph k) h (k_sph k) (k_sh k) (k_trail k) (k_cancel k) (k_qc k) (tl (k_qs k)) (k_held k).
 
 (* ---- one step ---- *)
 Definition step (s : state) (o : op) : state * out :=
@@ -188,11 +207,11 @@ Definition step (s : state) (o : op) : state * out :=
         if (Z.of_nat (open_out s) <? maxc s)%Z then
           (* h2 send_headers succeeded: init_stream, register, write *)
           (Build_state (upd c (fun k => set_cph COpened (cl_act (h2_new es false) [KHeaders es] k)) (calls s))
-                       (c :: creg s) (sreg s) (maxc s) (flag s) (sq s), OOpened)
+                       (c :: creg s) (sreg s) (maxc s) (flag s) (sq s) (cpaused s), OOpened)
         else
           (* TooManyStreamsError: stream_close_waiter.clear(); await stream_close_waiter.wait() *)
-          (Build_state (upd c (set_cph CWaiting) (calls s)) (creg s) (sreg s) (maxc s) false (sq s),
-           OBlocked)
+          (Build_state (upd c (set_cph CWaiting) (calls s)) (creg s) (sreg s) (maxc s) false (sq s)
+                       (cpaused s), OBlocked)
       | _ => (s, OSkip)
       end
     end
@@ -226,11 +245,17 @@ Definition step (s : state) (o : op) : state * out :=
     | Some k =>
       match k_cph k with
       | COpened =>
-        (* finally: if closable: reset_nowait(); release_stream(): pop the key, set the event *)
-        let fs := if h2_open (k_ch k) then [KRst] else [] in
+        (* finally: if closable: reset_nowait(); release_stream(): pop the key, set the event.
+           reset_nowait always calls h2 reset_stream (the stream is closed for the client's h2 at once)
+           but writes only `if write_ready.is_set()`: while paused the RST_STREAM frame stays in h2's
+           send buffer until something else writes (CFlush) *)
+        let op := h2_open (k_ch k) in
+        let fs := if op && negb (cpaused s) then [KRst] else [] in
+        let hold := op && cpaused s in
         (Build_state
-           (map wake (upd c (fun k => set_cph CExited (cl_act (h2_send_rst (k_ch k)) fs k)) (calls s)))
-           (remove_nat c (creg s)) (sreg s) (maxc s) true (sq s), ONone)
+           (map wake (upd c (fun k => set_held (k_held k || hold)
+                                        (set_cph CExited (cl_act (h2_send_rst (k_ch k)) fs k))) (calls s)))
+           (remove_nat c (creg s)) (sreg s) (maxc s) true (sq s) (cpaused s), ONone)
       | CExited => (s, OSkip)
       | _ =>
         (* _send_request_done is false: __aexit__ returns at once; a waiter leaves the Event *)
@@ -246,7 +271,7 @@ Definition step (s : state) (o : op) : state * out :=
       | f :: _ =>
         let '(k', reg) := srv_recv f k in
         (Build_state (upd c (fun _ => k') (calls s)) (creg s)
-                     (if reg then c :: sreg s else sreg s) (maxc s) (flag s) (sq s), ONone)
+                     (if reg then c :: sreg s else sreg s) (maxc s) (flag s) (sq s) (cpaused s), ONone)
       end
     end
   | DeliverS2C c =>
@@ -263,7 +288,7 @@ Definition step (s : state) (o : op) : state * out :=
     | [] => (s, OEmpty)
     | n :: rest =>
       (* RemoteSettingsChanged with MAX_CONCURRENT_STREAMS: stream_close_waiter.set() *)
-      (Build_state (map wake (calls s)) (creg s) (sreg s) n true rest, ONone)
+      (Build_state (map wake (calls s)) (creg s) (sreg s) n true rest (cpaused s), ONone)
     end
   | STrailers c nonok =>
     match nth_error (calls s) c with
@@ -311,11 +336,15 @@ Definition step (s : state) (o : op) : state * out :=
         let leak := h2_open h && negb (h_se h) in
         (* finally: release_stream() / done-callback *)
         (Build_state (upd c (sv_act (SExited leak) h (k_trail k || negb silent) (k_cancel k) fs) (calls s))
-                     (creg s) (remove_nat c (sreg s)) (maxc s) (flag s) (sq s), ONone)
+                     (creg s) (remove_nat c (sreg s)) (maxc s) (flag s) (sq s) (cpaused s), ONone)
       | _ => (s, OSkip)
       end
     end
-  | SSettings n => (Build_state (calls s) (creg s) (sreg s) (maxc s) (flag s) (sq s ++ [n]), ONone)
+  | SSettings n => (Build_state (calls s) (creg s) (sreg s) (maxc s) (flag s) (sq s ++ [n]) (cpaused s), ONone)
+  | CPause => (Build_state (calls s) (creg s) (sreg s) (maxc s) (flag s) (sq s) true, ONone)
+  | CResume => (Build_state (calls s) (creg s) (sreg s) (maxc s) (flag s) (sq s) false, ONone)
+    (* resume_writing only sets write_ready: it writes nothing *)
+  | CFlush => (with_calls s (map flush1 (calls s)), ONone)
   end.
 
 Definition run (ops : list op) (s : state) : state := fold_left (fun s o => fst (step s o)) ops s.
@@ -339,10 +368,10 @@ Definition is_pending (k : call) : bool :=
   match k_cph k with CNew | CWaiting | CWoken => true | _ => false end.
 Definition is_running (k : call) : bool := match k_sph k with SRunning => true | _ => false end.
 Definition is_leak (k : call) : bool := match k_sph k with SExited true => true | _ => false end.
-(* the client has closed its half of the stream (END_STREAM or RST sent, or stream closed) or never
-   opened it *)
+(* the client has closed its half of the stream on the wire (END_STREAM or RST written, or stream
+   closed by the server) or never opened it *)
 Definition client_half_closed (k : call) : bool :=
-  negb (h_op (k_ch k)) || h_se (k_ch k) || h2_closed (k_ch k).
+  negb (k_held k) && (negb (h_op (k_ch k)) || h_se (k_ch k) || h2_closed (k_ch k)).
 Definition wire_empty (k : call) : bool :=
   match k_qc k, k_qs k with [], [] => true | _, _ => false end.
 
@@ -362,10 +391,11 @@ Definition quiescent (s : state) : bool :=
 
 Record snapshot := { n_creg : nat; n_sreg : nat; n_out : nat; n_in : nat;
                      l_waiting : list nat; l_woken : list nat; l_opened : list nat; l_leak : list nat;
-                     v_maxc : Z; n_wire : nat }.
+                     v_maxc : Z; n_wire : nat; l_held : list nat; v_paused : bool }.
 Definition snap (s : state) : snapshot :=
   Build_snapshot (length (creg s)) (length (sreg s)) (open_out s) (open_in s)
                  (idx_where is_waiting (calls s)) (idx_where is_woken (calls s))
                  (idx_where is_opened (calls s)) (idx_where is_leak (calls s))
                  (maxc s)
-                 (length (sq s) + fold_right (fun k a => length (k_qc k) + length (k_qs k) + a) 0 (calls s)).
+                 (length (sq s) + fold_right (fun k a => length (k_qc k) + length (k_qs k) + a) 0 (calls s))
+                 (idx_where k_held (calls s)) (cpaused s).
